@@ -516,6 +516,15 @@ class Discharger:
             ln, idx = a.val_op(t['ops'][0], p), a.val_op(t['ops'][1], p)
             i = const_of(idx)
             if i is None:
+                # index = the position handed out by enumerate()/a 0..len range over a buffer of the same type-level length
+                from .aeadctx import _payload_path, _iter_layout
+                pth, nx = _payload_path(idx)
+                lay = _iter_layout(a, nx) if nx is not None else None
+                if lay is not None and lay[0].get(pth, (None,))[0] == 'index' and ln[0] == 'len':
+                    n_idx = ref_len(a, facts, ln[1], p)
+                    n_drv = [ref_len(a, facts, d_, p) for d_ in lay[1]]
+                    if n_idx is not None and n_drv and all(x == n_idx for x in n_drv):
+                        return 'D3', 'index runs over a buffer of the same type-level length %s' % (n_idx,)
                 return None
             if const_of(ln) is not None and i < const_of(ln):
                 return 'D1', 'constant index %d < array length %d' % (i, const_of(ln))
